@@ -191,7 +191,7 @@ def po_repay_collateral(S):
     d1, s1 = debt_amount(m, w.op), supply_amount(m, c)
     S.check("paid==requested-or-what-the-collateral-covers", S.eq(paid, amount) or (amount * Pd > s0 * Pc and S.eq(paid * Pd, s0 * Pc)))
     S.check("debt-reduced-by-paid(mod-dust)", S.le(d0 - paid - DUST * borrow_index(m, w.op), d1) and S.le(d1, d0 - paid + DUST * borrow_index(m, w.op)))
-    S.check("collateral-reduced-by-paid-value-at-bar-prices(mod-dust)", S.le(s0 - paid * Pd / Pc - DUST * liq_index(m, c), s1) and S.le(s1, s0 - paid * Pd / Pc))
+    S.check("collateral-reduced-by-paid-value-at-bar-prices(mod-dust)", S.le(s0 - DUST * liq_index(m, c), s1 + paid * Pd / Pc) and S.le(s1 + paid * Pd / Pc, s0))      # stated on sums: compared at the magnitude of the amounts (DESIGN section 7)
     S.unchanged("wallet-untouched", wal0, dump(wallet(w)))
     if c != w.op:
         S.unchanged("other-positions-untouched", others0, dump(positions(m, (c,), (w.op,))))
